@@ -114,6 +114,22 @@ def Run.observed (r : Run) (enabled : Bool) (native : Nat → Bool) (clientBody 
     deliveries := r.sent.map (fun s => ⟨s.ep, s.path, s.fmt, s.body == clientBody⟩),
     modeHeader := r.modeHeader, proxied := r.proxied }
 
+/-- One step of a fleet history on ONE long-lived application: what the request finds — the endpoints after
+    filtering at that moment (healthy and serving the model asked for), whether the request is valid, how
+    each endpoint answers an attempt, the client's bytes. -/
+structure Step where
+  eps     : List Ep
+  valid   : Bool
+  outcome : Nat → Attempt
+  body    : List UInt8
+
+/-- A history of requests through one application: the handler keeps nothing between two requests, so
+    each step is `run` on what that step finds. (The harness takes one production stack through such
+    histories; the driver judges every step against this.) -/
+def runHistory (enabled : Bool) (support : Support) (translate : List UInt8 → List UInt8)
+    (select : List Nat → Option Nat) (steps : List Step) : List Run :=
+  steps.map (fun st => run enabled support translate st.valid select st.outcome st.eps st.body)
+
 /-- Enabled profiles whose declared `messages_path` is not the path the code forwards to
     (`PreparePassthrough` hard-codes its TargetPath and never reads the profile's). Informational. -/
 def declaredPathMismatch : List (String × String) :=
